@@ -432,11 +432,22 @@ def prefix_sorted(ctx, res):
     for l in loops:
         tv = norm(l.target)
         tests = [i for i in l.body if isinstance(i, ast.If)]
-        if tests and norm(tests[0].test) in (
-                f"{tv} == name[:len({tv})]", f"name[:len({tv})] == {tv}",
-                f"name.startswith({tv})"):
+        pos = (f"{tv} == name[:len({tv})]", f"name[:len({tv})] == {tv}",
+               f"name.startswith({tv})")
+        neg = (f"{tv} != name[:len({tv})]", f"name[:len({tv})] != {tv}",
+               f"not name.startswith({tv})",
+               f"not {tv} == name[:len({tv})]")
+        if tests and norm(tests[0].test) in pos:
             rets = [r for r in ast.walk(tests[0]) if isinstance(r, ast.Return)]
             ok = bool(rets)
+        elif tests and norm(tests[0].test) in neg and len(
+                tests[0].body) == 1 and isinstance(tests[0].body[0],
+                                                   ast.Continue):
+            # guard-clause form: `if no match: continue`, then the match body
+            rest = l.body[l.body.index(tests[0]) + 1:]
+            ok = any(isinstance(r, ast.Return)
+                     for s_ in rest for r in ast.walk(s_)) \
+                and isinstance(rest[-1], ast.Return)
     res.oblige(ok, "__prefix_trait__:first-match", mod.loc(fn),
                "__prefix_trait__ must walk prefix_traits['*'] in order and "
                "return at the first prefix that starts the name")
@@ -889,17 +900,29 @@ def tuple_default(ctx, res):
     mod = repo.module(T)
     fn = repo.func(T, "BaseTuple.__init__")
     guards = []
+    swapped = False
     for i in ast.walk(fn):
         if isinstance(i, ast.If) and i.orelse:
             body_txt = " ".join(norm(s) for s in i.body)
             else_txt = " ".join(norm(s) for s in i.orelse)
             if "tuple(" in body_txt and "DefaultValue.callable" in else_txt:
                 guards.append(i)
+            elif "tuple(" in else_txt and "DefaultValue.callable" in body_txt:
+                guards.append(i)
+                swapped = True
     if len(guards) != 1:
         raise AnalysisError("BaseTuple.__init__: constant/dynamic default "
                             "decision not found")
     gd = guards[0]
-    ok, why = _universal_over_children(fn, gd.test)
+    gtest = gd.test
+    if swapped:
+        # `if not <all constant>: dynamic  else: constant`
+        if isinstance(gtest, ast.UnaryOp) and isinstance(gtest.op, ast.Not):
+            gtest = gtest.operand
+        else:
+            raise AnalysisError("BaseTuple.__init__: swapped default "
+                                "decision without `not`")
+    ok, why = _universal_over_children(fn, gtest)
     res.instance("BaseTuple.__init__:default-decision", mod.loc(gd),
                  guard=norm(gd.test), form=why)
     if ok is None:
@@ -1002,9 +1025,18 @@ def shareable_default(ctx, res):
         if isinstance(c, ast.Call) and norm(c.func) in ("all", "any") \
                 and c.args and isinstance(c.args[0], ast.GeneratorExp):
             g = c.args[0]
-            if not isinstance(g.generators[0].target, ast.Name):
-                continue
-            var = g.generators[0].target.id
+            tgt = g.generators[0].target
+            if isinstance(tgt, ast.Name):
+                var = tgt.id
+            else:
+                # unpacked pairs: the kind is the component the predicate uses
+                used = {n.id for n in ast.walk(g.elt)
+                        if isinstance(n, ast.Name)}
+                cands = [n.id for n in ast.walk(tgt)
+                         if isinstance(n, ast.Name) and n.id in used]
+                if len(cands) != 1:
+                    continue
+                var = cands[0]
             if "default" not in norm(g.generators[0].iter):
                 continue
             neg = norm(c.func) == "any"
